@@ -48,11 +48,12 @@ func (f FilterFlag) String() string {
 		return name
 	}
 
+	// Iterate over the flags in a fixed order, the iteration order of a map is random.
 	var list []string
-	for flag, name := range filterFlagNames {
+	for _, flag := range []FilterFlag{FilterFlagTSync, FilterFlagLog} {
 		if f&flag != 0 {
 			f ^= flag
-			list = append(list, name)
+			list = append(list, filterFlagNames[flag])
 		}
 	}
 	if f != 0 {
